@@ -12,9 +12,10 @@ HOSTILE_FILES = [
     "back\\slash", "&amp;", "&#10;", "<!--c-->", "a" * 200, "ß" * 100, "Z", "0", "ascmhl.txt", "ascmhl_chain.xml",
     ".DS_Store.bak", "x.mhl", "cafe\u0301.txt", "caf\u00e9.txt", "\u212b.dat", "\u00c5.dat", "\u1112\u1161\u11ab.txt", "\ud55c.txt",
     "[1].bin", "a[b]c.mov", "x{1,2}.txt", "line\u2028sep.txt", "para\u2029graph.mov", "nel\u0085.bin",
+    "..notes.txt", "...", ". .", "..a",
 ]
 HOSTILE_DIRS = ["dir with space", "ümlaut", "日本", "d&d", "d<e>", "d'q\"", ".hiddendir", "x" * 120, "A B", "#d", "d]]>",
-                "u\u0308ber", "\u00fcber", "Card [A001]", "q?*", "ls\u2028dir"]
+                "u\u0308ber", "\u00fcber", "Card [A001]", "q?*", "ls\u2028dir", "..cache", "...d"]
 
 TZS = ["UTC0", "CET-1CEST,M3.5.0,M10.5.0/3", "EST5EDT,M3.2.0,M11.1.0", "AEST-10AEDT,M10.1.0,M4.1.0/3",
        "NST3:30NDT,M3.2.0,M11.1.0", "IST-5:30", "<-03>3", "LHST-10:30LHDT-11,M10.1.0,M4.1.0",
